@@ -15,6 +15,7 @@
 
 #include <pugixml.hpp>
 
+#include <algorithm>
 #include <string>
 #include <string_view>
 #include <optional>
@@ -29,8 +30,14 @@ class schema_parser
 {
 public:
     schema_parser(
-        const std::string& path, ireporter& reporter, ifs_provider& fs_provider)
-        : reporter{&reporter}, fs_provider{&fs_provider}
+        const std::string& path,
+        ireporter& reporter,
+        ifs_provider& fs_provider,
+        const schema_parser* parent = nullptr)
+        : reporter{&reporter},
+          fs_provider{&fs_provider},
+          path{path},
+          parent{parent}
     {
         const auto file_data = this->fs_provider->read_file(path);
         locations = location_manager{path, file_data};
@@ -58,6 +65,9 @@ public:
 private:
     ireporter* reporter;
     ifs_provider* fs_provider;
+    std::string path;
+    // parser of the file which includes this one, if any
+    const schema_parser* parent;
     location_manager locations;
     pugi::xml_document xml_doc;
     sbe::message_schema message_schema;
@@ -135,7 +145,19 @@ private:
     void parse_include(const pugi::xml_node root)
     {
         const auto path = get_required_non_empty_string(root, "href");
-        auto parser = schema_parser{path, *reporter, *fs_provider};
+        for(const schema_parser* including = this; including;
+            including = including->parent)
+        {
+            if(including->path == path)
+            {
+                throw_error(
+                    "{}: file `{}` is included recursively",
+                    locations.find(root.offset_debug()),
+                    path);
+            }
+        }
+
+        auto parser = schema_parser{path, *reporter, *fs_provider, this};
         parser.parse_schema_content();
 
         const auto& schema = parser.get_message_schema();
@@ -267,7 +289,8 @@ private:
             t.value_ref = get_optional_string_attribute(root, "valueRef");
             t.constant_value = get_optional_node_content(root);
 
-            if((t.primitive_type == "char") && root.attribute("length").empty())
+            if((t.primitive_type == "char") && root.attribute("length").empty()
+               && t.constant_value)
             {
                 t.length = t.constant_value->size();
             }
@@ -783,7 +806,10 @@ private:
 
         if(!result)
         {
-            const auto location = locations.find(result.offset);
+            // for a document truncated inside a tag `pugixml` reports an
+            // offset one past the end of the buffer
+            const auto location = locations.find(
+                std::min<std::size_t>(result.offset, data.size()));
             throw_error(
                 "{}: XML parsing error: `{}`", location, result.description());
         }
